@@ -315,8 +315,19 @@ func diffKind(got, want, orig string) string {
 	return "none"
 }
 
+// c12Case is either a single-rule history on one rules file or an --all history on a whole tree.
+type c12Case struct {
+	Single *rulesCase `json:"single,omitempty"`
+	Proj   *project   `json:"proj,omitempty"`
+	Edit   int        `json:"edit,omitempty"` // which target (in walk order) gets its stored operand edited
+}
+
 func c12Check(env *core.Env, cc core.Case) core.Verdict {
-	c := cc.(*rulesCase)
+	w := cc.(*c12Case)
+	if w.Proj != nil {
+		return c12AllCheck(env, w)
+	}
+	c := w.Single
 	valid, _ := c.targetValid()
 	if !valid {
 		return core.Verdict{Status: core.Skipped}
@@ -412,6 +423,69 @@ func c12Check(env *core.Env, cc core.Case) core.Verdict {
 	return v
 }
 
+// c12AllCheck: update --all -> compare --all (text, github) -> edit one stored operand -> compare --all must notice,
+// wherever the edited rule sits in the walk.
+func c12AllCheck(env *core.Env, w *c12Case) core.Verdict {
+	p := w.Proj
+	root := emptyRoot(env)
+	defer rmCase(root)
+	if err := p.tree().Write(root); err != nil {
+		return core.Incon("cannot write tree: %v", err)
+	}
+	targets := p.targets()
+	v := core.Verdict{Status: core.Held, Features: []string{"lane:all", fmt.Sprintf("rules:%d", len(targets))}, Counts: map[string]int{}}
+	u := cli(env, root, nil, "regex", "update", "--all")
+	if u.Exit != 0 {
+		return core.Viol("update-all-fails", "update --all failed on a valid tree: %s", describe(u))
+	}
+	for _, mode := range [][]string{nil, {"-o", "github"}} {
+		cm := cli(env, root, nil, append(append([]string{}, mode...), "regex", "compare", "--all")...)
+		if cm.Exit != 0 || strings.Contains(string(cm.Stdout), "has changed") {
+			return core.Viol("compare-all-after-update", "compare --all %v reports a change right after update --all: %s", mode, describe(cm))
+		}
+		if mode == nil && strings.Count(string(cm.Stdout), "has not changed") != len(targets) {
+			return core.Viol("compare-all-incomplete", "compare --all reports %d unchanged rules, the tree has %d assembly files\n%s", strings.Count(string(cm.Stdout), "has not changed"), len(targets), core.Q(string(cm.Stdout)))
+		}
+	}
+	t := targets[w.Edit%len(targets)]
+	file, _ := sut.Read(root, t.File.path())
+	_, pos := t.File.render(nil)
+	ls := strings.Split(file, "\n")
+	line := ls[pos[t.Key]]
+	op, ok := operandOf(line)
+	if !ok || op == "" {
+		return core.Verdict{Status: core.Skipped, Msg: "empty operand"}
+	}
+	i := strings.Index(line, "@rx ") + 4
+	b := []byte(line)
+	at := i + (w.Edit*7)%len(op)
+	if b[at] == 'z' {
+		b[at] = 'y'
+	} else {
+		b[at] = 'z'
+	}
+	ls[pos[t.Key]] = string(b)
+	if err := (sut.Tree{t.File.path(): strings.Join(ls, "\n")}).Write(root); err != nil {
+		return core.Incon("cannot write: %v", err)
+	}
+	where := fmt.Sprintf("edited rule %s is number %d of %d in walk order", t.Key, w.Edit%len(targets)+1, len(targets))
+	gh := cli(env, root, nil, "-o", "github", "regex", "compare", "--all")
+	if gh.Exit == 0 {
+		return core.Viol("compare-all-github-misses-edit", "compare --all -o github exits 0 although a stored operand differs from the generated regex (%s)\n%s", where, describe(gh))
+	}
+	tx := cli(env, root, nil, "regex", "compare", "--all")
+	if !strings.Contains(string(tx.Stdout), "Regex of "+t.ID+" has changed") {
+		return core.Viol("compare-all-misses-edit", "compare --all does not report rule %s as changed (%s)\n%s", t.ID, where, describe(tx))
+	}
+	sg := cli(env, root, nil, "regex", "compare", t.Key)
+	if sg.Exit == 0 {
+		return core.Viol("compare-misses-edit", "compare %s exits 0 although the stored operand was edited", t.Key)
+	}
+	v.Nontrivial = len(targets) >= 2
+	v.Counts["edits_detected"] = 1
+	return v
+}
+
 func rulesCases(env *core.Env, rng *rand.Rand, q, t int) []core.Case {
 	n := env.N(q, t)
 	var cs []core.Case
@@ -439,11 +513,24 @@ func init() {
 	register(&core.Property{
 		ID:    "C12",
 		Level: "exploration",
-		Rule: "the rules-file trees of C11 with a valid target; history update -> compare (text and github mode) -> update -> edit one byte of the stored operand (flip / insert / delete at a PRNG-chosen offset) -> compare (both modes). " +
-			"Oracle: stored operand (cut out by the harness from the line it rendered) equals generate's stdout; compare exits 0 and says 'has not changed' after update; second update leaves the bytes unchanged; after the edit compare exits non-zero in both modes and says 'has changed'. Non-trivial = complete history executed.",
-		Cases:         func(env *core.Env, rng *rand.Rand) []core.Case { return rulesCases(env, rng, 300, 6000) },
+		Rule: "(a) the rules-file trees of C11 with a valid target; history update -> compare (text and github mode) -> update -> edit one byte of the stored operand (flip / insert / delete at a PRNG-chosen offset) -> compare (both modes). " +
+			"Oracle: stored operand (cut out by the harness from the line it rendered) equals generate's stdout; compare exits 0 and says 'has not changed' after update; second update leaves the bytes unchanged; after the edit compare exits non-zero in both modes and says 'has changed'. (b) whole generated CRS trees: update --all -> compare --all in both modes (exit 0, every rule reported unchanged) -> one byte of one stored operand edited, the rule chosen anywhere in walk order -> compare --all -o github must fail, compare --all must name the rule as changed, single compare must fail. Non-trivial = complete history executed.",
+		Cases: func(env *core.Env, rng *rand.Rand) []core.Case {
+			var cs []core.Case
+			for _, c := range rulesCases(env, rng, 300, 6000) {
+				cs = append(cs, &c12Case{Single: c.(*rulesCase)})
+			}
+			for i, n := 0, env.N(80, 1500); i < n; i++ {
+				p := projGen(rng)
+				for len(p.targets()) < 2 {
+					p = projGen(rng)
+				}
+				cs = append(cs, &c12Case{Proj: p, Edit: rng.Intn(1000)})
+			}
+			return cs
+		},
 		Check:         c12Check,
-		Decode:        decoder[rulesCase](),
+		Decode:        decoder[c12Case](),
 		MinNontrivial: 60,
 	})
 }
